@@ -96,8 +96,8 @@ PROPS = {
         'explanation': 'Verus: mov/store_temporary/restore_temporary contracts (proved, all placements). Bounded native contract check: all maps m,n<=5 (thorough) / <=4 (quick) x kinds x offsets x 3 backends + random larger maps; never counted as proved.',
     },
     'C13': {
-        'units': ['x86_routine', 'a64_routine', 'x86_code', 'a64_code', 'x86_print'],
-        'kill_units': ['x86_routine', 'a64_routine', 'x86_print'],
+        'units': ['x86_routine', 'a64_routine', 'x86_code', 'a64_code', 'x86_print', 'a64_print'],
+        'kill_units': ['x86_routine', 'a64_routine', 'x86_print', 'a64_print'],
         'aux': ['native_prints'],
         'level': 'other',
         'claim': 'Prologue, epilogue and argument shuffle of the x86-64 and AArch64 routines are proved by Verus over the ISA models (callee-saved registers and the stack pointer restored, result register untouched by the epilogue, stack-pointer alignment arithmetic, heap/free initialisation; AArch64 setup in the thorough tier only). caller_save_registers_info is proved on both backends to return exactly the caller-saved registers that hold live variables (plus X30 and the scratch register on AArch64), for every context. The save/align/call/restore sequence around the print runtime and the whole routine skeleton (both backends) are checked by a bounded native contract check for 1..20 live variables x kind assignments x argument positions and 0..5 / 0..7 entry arguments, on machine models whose call destroys all caller-saved state and faults on a misaligned stack pointer.',
@@ -118,7 +118,7 @@ PROPS = {
         'explanation': 'CBMC contracts for print_i64/println_i64 and for the generated drivers (n = 0..7), Verus contract for the argument shuffle, bounded native execution of the routine skeleton',
     },
     'C14': {
-        'units': ['x86_code', 'a64_code', 'rv64_code', 'x86_routine', 'a64_routine', 'x86_moves', 'a64_moves', 'rv64_moves', 'x86_memory', 'a64_memory', 'rv64_memory', 'x86_print'],
+        'units': ['x86_code', 'a64_code', 'rv64_code', 'x86_routine', 'a64_routine', 'x86_moves', 'a64_moves', 'rv64_moves', 'x86_memory', 'a64_memory', 'rv64_memory', 'x86_print', 'a64_print'],
         'aux': ['native_labels', 'kani_fresh_label'],
         'level': 'proof',
         'claim': 'Every instruction pushed by any verified emitter satisfies the operand-range predicate of its printed form (immediates, displacements, register numbers), jump-table entries have the stride assumed by the tag arithmetic, spill and field offsets are in range; proved for all inputs. Label uniqueness / symbol collisions are not decided.',
